@@ -382,6 +382,19 @@ func ppInstance(inst *flavors.Instance) slip.Object {
 	}
 	for _, name := range names {
 		iv, _ := inst.LocalGet(slip.Symbol(name))
+		if iv == slip.Unbound {
+			form = append(form,
+				slip.List{
+					slip.Symbol("slot-makunbound"),
+					slip.Symbol("inst"),
+					slip.List{
+						slip.Symbol("quote"),
+						slip.Symbol(name),
+					},
+				},
+			)
+			continue
+		}
 		form = append(form,
 			slip.List{
 				slip.Symbol("setf"),
